@@ -1,5 +1,7 @@
 /* prelude for generated C: arithmetic macros (bit-precise or uninterpreted) */
 #include <stddef.h>
+/* element-level bounds obligation for fixed-size arrays inside structs */
+#define VERIF_IDX(i, n) ({ __typeof__(i) _vi = (i); __CPROVER_assert(_vi >= 0 && (unsigned long)_vi < (n), "array index within bounds of fixed-size array"); _vi; })
 #ifdef VERIF_UF
 unsigned long __CPROVER_uninterpreted_mul(unsigned long, unsigned long);
 unsigned long __CPROVER_uninterpreted_div(unsigned long, unsigned long);
